@@ -331,6 +331,7 @@ func (srv *Server) ListenAndServe() error {
 		srv.Listener = l
 		srv.started = true
 		unlock()
+		verifHook("start.unlocked", nil)
 		return srv.serveTCP(l)
 	case "tcp-tls", "tcp4-tls", "tcp6-tls":
 		if srv.TLSConfig == nil || (len(srv.TLSConfig.Certificates) == 0 && srv.TLSConfig.GetCertificate == nil) {
@@ -345,6 +346,7 @@ func (srv *Server) ListenAndServe() error {
 		srv.Listener = l
 		srv.started = true
 		unlock()
+		verifHook("start.unlocked", nil)
 		return srv.serveTCP(l)
 	case "udp", "udp4", "udp6":
 		l, err := listenUDP(srv.Net, addr, srv.ReusePort, srv.ReuseAddr)
@@ -359,6 +361,7 @@ func (srv *Server) ListenAndServe() error {
 		srv.PacketConn = l
 		srv.started = true
 		unlock()
+		verifHook("start.unlocked", nil)
 		return srv.serveUDP(u)
 	}
 	return &Error{err: "bad network"}
@@ -387,11 +390,13 @@ func (srv *Server) ActivateAndServe() error {
 		}
 		srv.started = true
 		unlock()
+		verifHook("start.unlocked", nil)
 		return srv.serveUDP(srv.PacketConn)
 	}
 	if srv.Listener != nil {
 		srv.started = true
 		unlock()
+		verifHook("start.unlocked", nil)
 		return srv.serveTCP(srv.Listener)
 	}
 	return &Error{err: "bad listeners"}
@@ -430,6 +435,7 @@ func (srv *Server) ShutdownContext(ctx context.Context) error {
 	}
 
 	srv.lock.Unlock()
+	verifHook("shutdown.unlocked", nil)
 
 	if testShutdownNotify != nil {
 		testShutdownNotify.Broadcast()
@@ -484,10 +490,12 @@ func (srv *Server) serveTCP(l net.Listener) error {
 			}
 			return err
 		}
+		verifHook("tcp.accepted", nil)
 		srv.lock.Lock()
 		// Track the connection to allow unblocking reads on shutdown.
 		srv.conns[rw] = struct{}{}
 		srv.lock.Unlock()
+		verifHook("tcp.registered", nil)
 		wg.Add(1)
 		go srv.serveTCPConn(&wg, rw)
 	}
@@ -550,6 +558,7 @@ func (srv *Server) serveUDP(l net.PacketConn) error {
 			srv.MsgInvalidFunc(m, ErrShortRead)
 			continue
 		}
+		verifHook("udp.read", nil)
 		wg.Add(1)
 		go srv.serveUDPPacket(&wg, m, l, sUDP, sPC)
 	}
@@ -584,6 +593,7 @@ func (srv *Server) serveTCPConn(wg *sync.WaitGroup, rw net.Conn) {
 	}
 
 	for q := 0; (q < limit || limit == -1) && srv.isStarted(); q++ {
+		verifHook("tcpconn.beforeRead", nil)
 		m, err := reader.ReadTCP(w.tcp, timeout)
 		if err != nil {
 			// TODO(tmthrgd): handle error
@@ -630,6 +640,7 @@ func (srv *Server) serveDNS(m []byte, w *response) {
 	if err != nil {
 		srv.MsgInvalidFunc(m, err)
 		// Let client hang, they are sending crap; any reply can be used to amplify.
+		verifHook("serveDNS.exit", nil)
 		return
 	}
 
@@ -661,8 +672,10 @@ func (srv *Server) serveDNS(m []byte, w *response) {
 		fallthrough
 	case MsgIgnore:
 		if w.udp != nil && cap(m) == srv.UDPSize {
+			verifHook("serveDNS.poolPut", m[:srv.UDPSize])
 			srv.udpPool.Put(m[:srv.UDPSize])
 		}
+		verifHook("serveDNS.exit", nil)
 
 		return
 	}
@@ -677,10 +690,12 @@ func (srv *Server) serveDNS(m []byte, w *response) {
 	}
 
 	if w.udp != nil && cap(m) == srv.UDPSize {
+		verifHook("serveDNS.poolPut", m[:srv.UDPSize])
 		srv.udpPool.Put(m[:srv.UDPSize])
 	}
 
 	srv.Handler.ServeDNS(w, req) // Writes back to the client
+	verifHook("serveDNS.exit", nil)
 }
 
 func (srv *Server) readTCP(conn net.Conn, timeout time.Duration) ([]byte, error) {
@@ -693,6 +708,7 @@ func (srv *Server) readTCP(conn net.Conn, timeout time.Duration) ([]byte, error)
 		conn.SetReadDeadline(time.Now().Add(timeout))
 	}
 	srv.lock.RUnlock()
+	verifHook("readTCP.deadlineSet", nil)
 
 	var length uint16
 	if err := binary.Read(conn, binary.BigEndian, &length); err != nil {
@@ -714,6 +730,7 @@ func (srv *Server) readUDP(conn *net.UDPConn, timeout time.Duration) ([]byte, *S
 		conn.SetReadDeadline(time.Now().Add(timeout))
 	}
 	srv.lock.RUnlock()
+	verifHook("readUDP.deadlineSet", nil)
 
 	m := srv.udpPool.Get().([]byte)
 	n, s, err := ReadFromSessionUDP(conn, m)
@@ -732,6 +749,7 @@ func (srv *Server) readPacketConn(conn net.PacketConn, timeout time.Duration) ([
 		conn.SetReadDeadline(time.Now().Add(timeout))
 	}
 	srv.lock.RUnlock()
+	verifHook("readPC.deadlineSet", nil)
 
 	m := srv.udpPool.Get().([]byte)
 	n, addr, err := conn.ReadFrom(m)
